@@ -912,7 +912,7 @@ func runGenerated(sc *nsScenario, rng *vk.Rand, nops int, rawHeavy bool) {
 	t := newTrack()
 	tag := 0
 	one := &nsScenario{Conns: sc.Conns, Names: sc.Names, Gated: sc.Gated}
-	foreign := []string{"/zz", "/a/", "/A", "/a/b/c", "/abc"}
+	foreign := []string{"/zz", "/a/", "/A", "/a/b/c", "/abc", "/a?x=1", "/b?", "/a#b", "/ab ", "/a;b"}
 	for step := 0; step < nops; step++ {
 		live := []int{}
 		for c := range sc.Conns {
